@@ -826,14 +826,41 @@ pub fn generate(rng: &mut Rng) -> Scenario {
 // Oracle
 // ------------------------------------------------------------------------------------------------------------------
 
-fn quoted_path(message: &str) -> Option<String> {
-    let a = message.find('\'')?;
-    let b = message[a + 1..].find("':").map(|i| i + a + 1).or_else(|| message.rfind('\''))?;
-    if b > a {
-        Some(message[a + 1..b].to_owned())
-    } else {
-        None
+/// Everything in a message that may be a path: the text between quotes of either kind, and blank-separated words
+/// (trimmed of punctuation). The wording of messages is not ours to rely on; which file a message is about is.
+fn path_candidates(message: &str) -> Vec<String> {
+    let mut out: Vec<String> = Vec::new();
+    for q in ['\'', '"', '`'] {
+        let parts: Vec<&str> = message.split(q).collect();
+        // odd-numbered parts are inside quotes; with an apostrophe inside a path the longest span also helps
+        for (i, p) in parts.iter().enumerate() {
+            if i % 2 == 1 && !p.is_empty() {
+                out.push((*p).to_owned());
+            }
+        }
+        if parts.len() > 3 {
+            if let (Some(a), Some(b)) = (message.find(q), message.rfind(q)) {
+                if b > a + 1 {
+                    out.push(message[a + 1..b].to_owned());
+                }
+            }
+        }
+        // "'path': reason" where the reason itself contains a quote
+        if let Some(a) = message.find(q) {
+            if let Some(b) = message[a + 1..].find(&format!("{q}:")) {
+                out.push(message[a + 1..a + 1 + b].to_owned());
+            }
+        }
     }
+    for w in message.split_whitespace() {
+        let t = w.trim_matches(|c: char| matches!(c, ':' | ',' | ';' | '.' | '(' | ')' | '\'' | '"' | '`'));
+        if t.contains('/') || t.contains(".slice") {
+            out.push(t.to_owned());
+        }
+    }
+    out.sort();
+    out.dedup();
+    out
 }
 
 pub fn judge(s: &Scenario, r: &RunResult) -> (Vec<Violation>, Vec<&'static str>) {
@@ -890,8 +917,8 @@ pub fn judge(s: &Scenario, r: &RunResult) -> (Vec<Violation>, Vec<&'static str>)
             let bad_canon = fs.entry_identity(&cwd, &unroot(bad));
             let hit = errors.iter().any(|d| {
                 d.code == "E001"
-                    && quoted_path(&d.message).map(|p| {
-                        let p = unroot(&p);
+                    && path_candidates(&d.message).iter().any(|p| {
+                        let p = unroot(p);
                         let b = bad.trim_end_matches('/');
                         if p == *bad || p == b || p.starts_with(&format!("{b}/")) {
                             return true;
@@ -908,7 +935,7 @@ pub fn judge(s: &Scenario, r: &RunResult) -> (Vec<Violation>, Vec<&'static str>)
                             _ => false,
                         };
                         same_entry || same_target
-                    }) == Some(true)
+                    })
             });
             if !hit {
                 vio.push(v("unreadable-input-not-reported", format!("'{bad}' cannot be compiled (missing, not a Slice file, a directory given as source, inaccessible or undecodable) but no E001 names it; errors: {:?}", errors.iter().map(|d| d.message.clone()).collect::<Vec<_>>())));
@@ -927,9 +954,7 @@ pub fn judge(s: &Scenario, r: &RunResult) -> (Vec<Violation>, Vec<&'static str>)
     }
 
     if !errors.is_empty() || r.exit != Exit::Code(0) {
-        let optional = |d: &Diag| -> bool {
-            d.code == "E001" && quoted_path(&d.message).map(|p| exp.optional_errors.iter().any(|o| *o == unroot(&p))) == Some(true)
-        };
+        let optional = |d: &Diag| -> bool { d.code == "E001" && path_candidates(&d.message).iter().any(|p| exp.optional_errors.iter().any(|o| *o == unroot(p))) };
         if !errors.is_empty() && errors.iter().all(|d| optional(d)) && spawns == 0 {
             probes.push("un-stat-able plain file reported (optional)");
             return (vio, probes);
@@ -984,7 +1009,7 @@ pub fn judge(s: &Scenario, r: &RunResult) -> (Vec<Violation>, Vec<&'static str>)
     // DuplicateFile warnings
     let mut got_dups: BTreeMap<String, usize> = BTreeMap::new();
     for d in diags.iter().filter(|d| d.code == "DuplicateFile") {
-        match quoted_path(&d.message).and_then(|p| identity_of_spelled(&p)) {
+        match path_candidates(&d.message).iter().find_map(|p| identity_of_spelled(p)) {
             Some(id) => *got_dups.entry(id).or_default() += 1,
             None => vio.push(v("duplicate-warning-for-unknown-path", d.message.clone())),
         }
